@@ -60,6 +60,7 @@ func main() {
 	trace := flag.Bool("trace", false, "keep the full event log")
 	sites := flag.String("sites", "", "site table (JSON) written by the build step")
 	list := flag.Bool("list", false, "list scenarios")
+	tracerun := flag.Int64("tracerun", -1, "in batch mode, emit the full event log of this run index")
 	recycle := flag.Int("recycle", 0, "exit with code 3 after this many runs so that the orchestrator starts a fresh process (0 = never)")
 	flag.Parse()
 
@@ -139,7 +140,10 @@ func main() {
 			break
 		}
 		emit(map[string]any{"begin": i})
-		res := sim.Execute(sc, *seed, i, *tier, nil, false)
+		res := sim.Execute(sc, *seed, i, *tier, nil, int64(i) == *tracerun)
+		if int64(i) == *tracerun {
+			emit(map[string]any{"trace": res.Tail, "i": i, "hash": res.Hash})
+		}
 		next = i + *stride
 		done++
 		agg.Add(res)
